@@ -12,6 +12,11 @@
 //   arr  <step>*     a pool of immutable types.Array values
 //        (lit v*) (add I v) (addAll I J) (delete I v) (deleteAll I J) (slice I i j) (unique I) (at I i)
 //        (sort I) (eachSlice I n) (flatten I) (find I v) (len I)
+//   @ehash (implementation only: no model side) = hash, plus
+//        (gomapv P*) (gomapi P*) (gomaps P*) (fromArr P*) (fromFlat P*) (wrap2 P*) (shv P*) (indexed v*) (parsetop P) (parsemix P*)
+//        (add I k v) (adda I k v) (addAll I J) (addAllArr I P*) (addAllFlat I P*) (mergeom I J) (entries I) (unique I);
+//        delete / deleteAll / slice / select / reject / sort / mapKeys are also run on a mutable hash
+//   @earr  (implementation only) = arr, plus (entry k v) (nest I*) (ints INT*) (strs xHEX*)
 //
 //   K ::= xHEX   V ::= INT      value k, v ::= INT | xHEX | (a value*)
 //
@@ -1406,8 +1411,8 @@ func execHash(steps []sx.Sexp, implOnly bool) core.Result {
 				res = "bad-ref"
 				break
 			}
-			if s.mutable != nil {
-				res = "skip" // the immutable operations are exercised on immutable hashes
+			if s.mutable != nil && !implOnly {
+				res = "skip" // (the model's pool machine has them on immutable hashes only; the implementation-only lines exercise them)
 				break
 			}
 			r := newRef()
@@ -3056,6 +3061,51 @@ func randListHash(r *rand.Rand, n int) string {
 	return "@ehash " + strings.Join(out, " ")
 }
 
+// randMutableViews: a mutable hash whose Delete / DeleteAll / Entries / Unique / Merge results must stay what they were
+// while the builder goes on changing (implementation only)
+func randMutableViews(r *rand.Rand, n int) string {
+	ops := []string{"(mnew)"}
+	size := 1
+	for i := r.Intn(3); i > 0; i-- {
+		ops = append(ops, "(mput 0 "+randHKey(r)+" "+randHVal(r)+")")
+	}
+	for i := 0; i < n; i++ {
+		switch x := r.Intn(100); {
+		case x < 35:
+			ops = append(ops, "(mput 0 "+randHKey(r)+" "+randHVal(r)+")")
+		case x < 50:
+			ops = append(ops, "(delete 0 "+randHKey(r)+")")
+			size++
+		case x < 62:
+			ks := []string{}
+			for j := r.Intn(3); j > 0; j-- {
+				ks = append(ks, randHKey(r))
+			}
+			ops = append(ops, "(deleteAll 0 ("+strings.Join(ks, " ")+"))")
+			size++
+		case x < 72:
+			ops = append(ops, "("+[]string{"entries", "unique"}[r.Intn(2)]+" 0)")
+			size++
+		case x < 80:
+			ops = append(ops, "("+[]string{"merge", "mergeom"}[r.Intn(2)]+" 0 "+strconv.Itoa(r.Intn(size))+")")
+			size++
+		case x < 86:
+			ops = append(ops, "(mputall 0 "+strconv.Itoa(r.Intn(size))+")")
+		case x < 92:
+			ops = append(ops, "(wrap "+randPairs(r, true)+")")
+			size++
+		case x < 96:
+			// (a slice with bounds beyond the length is skipped: no slot; later references may then answer bad-ref)
+			ops = append(ops, []string{"(slice 0 0 " + strconv.Itoa(r.Intn(3)) + ")", "(sort 0)", "(select 0 (" + randHKey(r) + " " + randHKey(r) + "))",
+				"(reject 0 (" + randHKey(r) + "))"}[r.Intn(4)])
+			size++
+		default:
+			ops = append(ops, "(get "+strconv.Itoa(r.Intn(size))+" "+randHKey(r)+")")
+		}
+	}
+	return "@ehash " + strings.Join(ops, " ")
+}
+
 func randArr(r *rand.Rand, n int) string {
 	vals := func() string {
 		vs := []string{}
@@ -3220,6 +3270,9 @@ func gen(g *core.G) {
 	}
 	for i := 0; i < 30*g.Scale; i++ {
 		g.Emit(randListHash(g.Rng, 60))
+	}
+	for i := 0; i < 400*g.Scale; i++ {
+		g.Emit(randMutableViews(g.Rng, 3+g.Rng.Intn(12)))
 	}
 	// 3. malformed stream (outside the quantifier; both sides must still agree)
 	for _, l := range []string{"sh (put a 1)", "sh (frobnicate)", "sh (put x61)", "hash (wrap (1))", "hash (put x 1 2)", "hash (delete 0)",
